@@ -175,6 +175,9 @@ PROPS = {
         n_quick=200, n_thorough=3000,
         gen_timeout=3000,
         release=False,
+        # Value.v (the float conversions RefSem uses) loads Flocq, whose real-number axioms are then in the
+        # context coqchk reports; no theorem of C06 depends on them (Print Assumptions: closed)
+        coqchk_axioms=REALS_AXIOMS,
         gates=["ok", "corpus.S-1", "corpus.S-2", "corpus.S-3", "identity.sites", "identity.same_position_twins",
                # nesting and non-local upvalues
                "closure.depth2", "closure.depth3", "closure.depth4", "upvalue.nonlocal2", "upvalue.nonlocal3",
